@@ -119,6 +119,14 @@ OPT_TABLE = {
     "gi::inner::deep": ["-", "-", "sc=1,ss=1,ig=1", "ss=3,th=1.", "-"],
     "gi::inner::deep_unignored": ["-", "-", "sc=1,ss=1,ig=1", "ss=3,th=1.", "sc=1,ig=0"],
     "io::read": ["-", "-", "-", "-"],        # the group on platform::linux::io (no benchmarks below it) does not enclose it
+    "sort": ["-", "-", "sc=1,ss=1"],
+    "sort::a": ["-", "-", "sc=5,ss=2", "-"],
+    "sort::b": ["-", "-", "sc=5,ss=2", "-"],
+    "sort::c": ["-", "-", "sc=5,ss=2", "ss=3"],
+    "tros": ["-", "-", "sc=2,ss=2"],
+    "tros::a": ["-", "-", "sc=6,ss=1,th=1.2.", "-"],
+    "tros::b": ["-", "-", "sc=6,ss=1,th=1.2.", "-"],
+    "tros::c": ["-", "-", "sc=6,ss=1,th=1.2.", "th=1."],
     "g1::inherit": ["-", "-", G1, "-"],
     "g1::size5": ["-", "-", G1, "ss=5"],
     "g1::g2::inherit": ["-", "-", G1, G2, "-"],
